@@ -95,11 +95,15 @@ def writeOut (sc : WSched) : List Frame → WView → List Frame × WView × R U
     | (v, .ready ()) => writeOut sc rest v
     | (v, .pending p) => (f :: rest, v, .pending p)
 
+/-- the queued reply joins the write buffer -/
+def Eng.queueReply (e : Eng) : Eng :=
+  match e.additional with
+  | some f => { e with out := e.out ++ [f], additional := none }
+  | none => e
+
 /-- the protocol flush: `additional`, then the write buffer, then the stream -/
 def engFlush (sc : WSched) (e : Eng) (v : WView) : Eng × WView × R Unit :=
-  let e := match e.additional with
-    | some f => { e with out := e.out ++ [f], additional := none }
-    | none => e
+  let e := e.queueReply
   match writeOut sc e.out v with
   | (rest, v, .pending p) => ({ e with out := rest }, v, .pending p)
   | (rest, v, .ready ()) =>
